@@ -201,7 +201,7 @@ Definition const_value (n : nat) (ts : list colty) (cols : list (list Z)) : valu
       ts 1 true.
 
 Definition reader_rows (a b : Z) (s : nat) : list (list (list Z)) :=
-  let cnt := Z.to_nat ((a + Z.of_nat s * b) mod 40) in
+  let cnt := Z.to_nat ((a + Z.of_nat s * b) mod 150) in
   map (fun i => [[ (Z.of_nat s * 7 + Z.of_nat i * 3) mod 23 ]; [ Z.of_nat i ]]) (seq 0 cnt).
 
 (* lines s, s+n, s+2n, ... *)
